@@ -658,13 +658,18 @@ def _handler_names(h):
 
 # ----------------------------------------------------------------------------- the invariant WF
 
-def WF(h):
-    """List of (name, closed formula) conjuncts of the well-formedness invariant over an arbitrary heap."""
+def WF(h, pos=None, cands=None):
+    """List of (name, closed formula) conjuncts of the well-formedness invariant over an arbitrary heap.
+    pos=(posIn, posOut): I2 in Skolemised form (use for hypotheses).  cands(s, inlet_side) -> candidate witness index terms:
+    I2 as a finite disjunction that implies the existential (use for goals)."""
     u, S, s, i, j = z3.Ints('u S s i j')
     k = lambda r: z3.Select(h.kind, r)
     al = lambda r: z3.Select(h.alloc, r)
     ln = lambda r: z3.Select(h.llen, r)
     inr = lambda S_, i_: z3.And(i_ >= 0, i_ < ln(S_))
+    plain = z3.is_const(h.elem)      # explicit triggers only make sense on the pre-state (plain array constants)
+    pat1 = {'patterns': [h.el(S, i)]} if plain else {}
+    pat2 = {'patterns': [z3.MultiPattern(h.el(S, i), h.el(S, j))]} if plain else {}
     C = []
     C.append(('T0: None is not an object', z3.And(z3.Not(al(0)), k(0) == 0)))
     C.append(('T1: every unit owns an Inlets and an Outlets object that point back to it',
@@ -676,8 +681,10 @@ def WF(h):
                   z3.Implies(z3.And(al(S), k(S) == INLETS), z3.And(al(z3.Select(h.sink, S)), k(z3.Select(h.sink, S)) == UNIT, z3.Select(h.ins, z3.Select(h.sink, S)) == S)),
                   z3.Implies(z3.And(al(S), k(S) == OUTLETS), z3.And(al(z3.Select(h.source, S)), k(z3.Select(h.source, S)) == UNIT, z3.Select(h.outs, z3.Select(h.source, S)) == S))))))
     C.append(('T3: port lists hold allocated streams or placeholders; lengths are non-negative',
-              z3.ForAll([S, i], z3.Implies(z3.And(al(S), z3.Or(k(S) == INLETS, k(S) == OUTLETS)),
-                                           z3.And(ln(S) >= 0, z3.Implies(inr(S, i), z3.And(al(h.el(S, i)), z3.Or(k(h.el(S, i)) == STREAM, k(h.el(S, i)) == MISSING))))))))
+              z3.And(z3.ForAll([S], z3.Implies(z3.And(al(S), z3.Or(k(S) == INLETS, k(S) == OUTLETS)), ln(S) >= 0)),
+                     z3.ForAll([S, i], z3.Implies(z3.And(al(S), z3.Or(k(S) == INLETS, k(S) == OUTLETS), inr(S, i)),
+                                                  z3.And(al(h.el(S, i)), z3.Or(k(h.el(S, i)) == STREAM, k(h.el(S, i)) == MISSING))),
+                               **pat1))))
     C.append(('T4: the sink and source of every stream or placeholder is None or a unit',
               z3.ForAll([s], z3.Implies(z3.And(al(s), z3.Or(k(s) == STREAM, k(s) == MISSING)), z3.And(
                   z3.Or(z3.Select(h.sink, s) == 0, z3.And(al(z3.Select(h.sink, s)), k(z3.Select(h.sink, s)) == UNIT)),
@@ -685,21 +692,31 @@ def WF(h):
     C.append(('I1: a stream listed among a unit\'s inlets (outlets) has that unit as its sink (source)',
               z3.ForAll([S, i], z3.And(
                   z3.Implies(z3.And(al(S), k(S) == INLETS, inr(S, i)), z3.Select(h.sink, h.el(S, i)) == z3.Select(h.sink, S)),
-                  z3.Implies(z3.And(al(S), k(S) == OUTLETS, inr(S, i)), z3.Select(h.source, h.el(S, i)) == z3.Select(h.source, S))))))
+                  z3.Implies(z3.And(al(S), k(S) == OUTLETS, inr(S, i)), z3.Select(h.source, h.el(S, i)) == z3.Select(h.source, S))),
+                        **pat1)))
+    def listed(seq_of, owner_field, s_):
+        U = z3.Select(owner_field, s_)
+        L = z3.Select(seq_of, U)
+        if pos is not None:                      # hypothesis form: Skolem function gives the index
+            w_ = (pos[0] if seq_of is h.ins else pos[1])(s_)
+            return z3.And(inr(L, w_), h.el(L, w_) == s_)
+        if cands is not None:                    # goal form: finite disjunction over candidate witnesses (implies the exists)
+            return z3.Or(*[z3.And(inr(L, c), h.el(L, c) == s_) for c in cands(s_, seq_of is h.ins)])
+        return z3.Exists([i], z3.And(inr(L, i), h.el(L, i) == s_))
     C.append(('I2: a stream whose sink (source) is a unit is listed among that unit\'s inlets (outlets)',
               z3.ForAll([s], z3.Implies(z3.And(al(s), k(s) == STREAM), z3.And(
                   z3.Implies(z3.Select(h.sink, s) != 0,
-                             z3.And(al(z3.Select(h.sink, s)), k(z3.Select(h.sink, s)) == UNIT,
-                                    z3.Exists([i], z3.And(inr(z3.Select(h.ins, z3.Select(h.sink, s)), i), h.el(z3.Select(h.ins, z3.Select(h.sink, s)), i) == s)))),
+                             z3.And(al(z3.Select(h.sink, s)), k(z3.Select(h.sink, s)) == UNIT, listed(h.ins, h.sink, s))),
                   z3.Implies(z3.Select(h.source, s) != 0,
-                             z3.And(al(z3.Select(h.source, s)), k(z3.Select(h.source, s)) == UNIT,
-                                    z3.Exists([i], z3.And(inr(z3.Select(h.outs, z3.Select(h.source, s)), i), h.el(z3.Select(h.outs, z3.Select(h.source, s)), i) == s)))))))))
+                             z3.And(al(z3.Select(h.source, s)), k(z3.Select(h.source, s)) == UNIT, listed(h.outs, h.source, s))))))))
     C.append(('I3: no stream occupies two ports of one list',
-              z3.ForAll([S, i, j], z3.Implies(z3.And(al(S), z3.Or(k(S) == INLETS, k(S) == OUTLETS), inr(S, i), inr(S, j), i != j), h.el(S, i) != h.el(S, j)))))
+              z3.ForAll([S, i, j], z3.Implies(z3.And(al(S), z3.Or(k(S) == INLETS, k(S) == OUTLETS), inr(S, i), inr(S, j), i != j), h.el(S, i) != h.el(S, j)),
+                        **pat2)))
     C.append(('I4: port lists of fixed size keep their size',
               z3.ForAll([S], z3.Implies(z3.And(al(S), z3.Or(k(S) == INLETS, k(S) == OUTLETS), z3.Select(h.fixed, S)), ln(S) == z3.Select(h.fsize, S)))))
     C.append(('I5: a placeholder belongs to one side only (inlet placeholders have no source, outlet placeholders no sink)',
               z3.ForAll([S, i], z3.And(
                   z3.Implies(z3.And(al(S), k(S) == INLETS, inr(S, i), k(h.el(S, i)) == MISSING), z3.Select(h.source, h.el(S, i)) == 0),
-                  z3.Implies(z3.And(al(S), k(S) == OUTLETS, inr(S, i), k(h.el(S, i)) == MISSING), z3.Select(h.sink, h.el(S, i)) == 0)))))
+                  z3.Implies(z3.And(al(S), k(S) == OUTLETS, inr(S, i), k(h.el(S, i)) == MISSING), z3.Select(h.sink, h.el(S, i)) == 0)),
+                        **pat1)))
     return C
